@@ -292,6 +292,27 @@ Theorem C06_step_law_elements : forall W (tb : table W) (s : st W),
   forall P, prob P (select_dist tb s) == prob P (selected_all (loci s) (per_element tb)).
 Proof. exact (@select_dist_all). Qed.
 
+(* ... and the STATE after the tranche of the step: the image of that product law under the deterministic firing of the
+   selected events in order, with the membership re-check (fire_tranche), started in the state in which the oracle of the
+   selection is used up and everything else is as it was.  So the one-step law of any model is the product law of
+   independent trials pushed through its own event functions - for every table, every network, every start state. *)
+Theorem C06_step_after_law : forall W (tb : table W) A (t : Q) (s : st W) (view : st W -> A),
+  probs_ok (per_element tb) -> probs_ok (fixed_rate tb) ->
+  forall P, prob P (step_dist_full tb t s view) ==
+            prob (fun sel => P (view (snd (fire_tranche tb t sel 0 (after_selection s)))))
+                 (bind (selected_all (loci s) (per_element tb))
+                       (fun a => bind (fixed_all (loci s) (fixed_rate tb)) (fun b => ret (a ++ b)))).
+Proof. exact (@step_dist_full_law). Qed.
+
+Theorem C06_step_after_law_unfold : forall W (tb : table W) A (t : Q) (s : st W) (view : st W -> A),
+  step_dist_full tb t s view =
+    bind (patterns (probs_of (loci s) (per_element tb))) (fun m =>
+      bind (fixed_script (loci s) (fixed_rate tb)) (fun md =>
+        ret (view (snd (tranche_step tb t 0 (set_oracle (rands_of (m ++ fst md)) (lns s) (snd md) s)))))) /\
+  after_selection s = set_oracle [] (lns s) [] s /\
+  (forall n s', tranche_step tb t n s' = let '(evs, s2) := tranche tb s' in fire_tranche tb t evs n s2).
+Proof. intros. repeat split. Qed.
+
 (* consequences of the product law.  For an event that eqx singles out, wherever it stands among any
    other events: the number of its elements selected in one step is binomial(|locus|, p) ... *)
 Theorem C06_count_binomial : forall eqx lc evs1 x evs2 k,
@@ -313,10 +334,14 @@ Proof.
   - exact (fixed_all_fires eqx lc f1 x f2 Hx Hn Ha).
 Qed.
 
-(* both laws have total mass 1 *)
+(* both laws have total mass 1, and so has the scripted law of the model's selection *)
 Theorem C06_laws_are_distributions : forall lc evs,
   mass (selected_all lc evs) == 1 /\ mass (fixed_all lc evs) == 1.
 Proof. intros lc evs. split; [apply mass_selected_all | apply mass_fixed_all]. Qed.
+
+Theorem C06_step_law_mass : forall W (tb : table W) (s : st W),
+  probs_ok (per_element tb) -> probs_ok (fixed_rate tb) -> mass (select_dist_full tb s) == 1.
+Proof. exact (@select_dist_full_mass). Qed.
 
 (* non-vacuity: two per-element events (p = 1/2 on a locus of two, p = 1/4 on a locus of one) and one
    fixed-rate event (p = 1/3 on the locus of two); both sides of C06_step_law computed *)
@@ -337,6 +362,19 @@ Example C06_step_law_example :
              (fun a => bind (fixed_all (loci s) (fixed_rate ex_full)) (fun b => ret (a ++ b)))) == 17 # 48 /\
   mass (select_dist_full ex_full s) == 1.
 Proof. cbv zeta. repeat split; vm_compute; reflexivity. Qed.
+
+(* non-vacuity of C06_step_after_law on the shipped SIR table (path 0 - 1 - 2, node 1 infectious, pInfect 1/2,
+   pRemove 1/4): the scripted law of the compartments after the step, and the product law pushed through
+   fire_tranche, both equal the hand-written product form *)
+Example C06_step_after_law_example :
+  let tb := sir_table [0; 1; 2]%Z [(0, 1); (1, 2)]%Z [(0, 3); (1, 1); (2, 3)]%Z (1#2) (1#4) in
+  let s := set_clock 1 (setup_state tb [] [] []) in
+  let want := indep [two 1 (1#2) 3; two 2 (1#4) 1; two 1 (1#2) 3] in
+  same_law (assignments [1; 2; 3]%Z 3) (step_dist_full tb 1 s (comps_of [0; 1; 2]%Z)) want = true /\
+  same_law (assignments [1; 2; 3]%Z 3)
+    (bind (bind (selected_all (loci s) (per_element tb)) (fun a => bind (fixed_all (loci s) (fixed_rate tb)) (fun b => ret (a ++ b))))
+          (fun sel => ret (comps_of [0; 1; 2]%Z (snd (fire_tranche tb 1 sel 0 (after_selection s)))))) want = true.
+Proof. cbv zeta. split; vm_compute; reflexivity. Qed.
 
 (* The shipped SIR model (Model/Compart.v, the table of harness/compart_coq.py; I = 1, R = 2, S = 3),
    pInfect = 1/2, pRemove = 1/4: the law of the compartments after the first timestep equals the
